@@ -40,7 +40,9 @@ def cases_(draw):
     stale = gen.rare(draw, 200)
     # the dumper's validator may be told to drop invalid rows: counters describe what was written
     drop = gen.rare(draw, 150)
-    return {'pkg': pkg, 'opts': opts, 'stale_counters': stale, 'drop_invalid': drop}
+    # the first of the two target directories already holds an older dump of the same package whose files have the
+    # same sizes but other contents (the rows in reverse order)
+    return {'pkg': pkg, 'opts': opts, 'stale_counters': stale, 'drop_invalid': drop, 'over_existing': gen.rare(draw, 200)}
 
 
 def cases(tier):
@@ -61,9 +63,13 @@ def counter_name(opts, key):
     return c.get(key, DEFAULTS[key]) if key in c else DEFAULTS[key]
 
 
-def dump_once(case, ctx):
+def dump_once(case, ctx, over_existing=False):
     pkg, opts = case['pkg'], case['opts']
     out_dir = ctx.tmpdir()
+    if over_existing:
+        step0, _ = gen_dump.build_dumper(dataflows, opts, out_dir)
+        with quiet():
+            Flow(FeedStep(gen.descriptor_of(pkg), [list(reversed(t)) for t in gen.tables_of(pkg)]), step0).process()
     if case.get('drop_invalid'):
         opts = dict(opts, validator_options={'on_error': dataflows.base.schema_validator.drop})
     step, loc = gen_dump.build_dumper(dataflows, opts, out_dir)
@@ -99,8 +105,10 @@ def check(case, ctx):
     classes = ['fmt:' + (opts['format'] if opts.get('force_format', True) else 'per-resource'), 'dumper:' + opts['dumper']] + (['re-dump'] if case.get('stale_counters') else []) + [
         'counters:' + ('default' if not opts.get('counters') else 'custom')]
     try:
-        loc1, stats1 = dump_once(case, ctx)
+        loc1, stats1 = dump_once(case, ctx, over_existing=bool(case.get('over_existing')))
         loc2, stats2 = dump_once(case, ctx)
+        if case.get('over_existing'):
+            classes.append('over-an-older-dump-of-equal-size')
     except Exception as e:
         raise unexpected(e, 'dump')
     names = {k: counter_name(opts, k) for k in DEFAULTS}
